@@ -15,16 +15,16 @@ var mixC01 = Mix{Set: 30, SetInvalid: 3, Delete: 12, Get: 8, GetItem: 8, Exist: 
 func init() {
 	register(&Prop{
 		ID: "C01", Level: "exploration",
-		Rule: "case i = history generated from H(seed,C01,i): 20-80 operations (Set/SetItem incl. overwrites at lower/equal/higher priority, invalid items, Delete, Get/GetItem/Exist/Min/Max/GetTotals/visits) over 1-3 collections, file-backed or memory-only, with Flush/EvictSomeItems/re-open placed between them; every return value is compared with a reference map and every open handle is fully read back every K steps. Cases with index < placement-cases enumerate, for one short base history, every gap x {Flush, Evict x3, Flush+Evict x3, Flush+Reopen}. Non-trivial = the history contains at least one overwrite, one delete of a present key and (file-backed) a flush/evict/re-open between two mutations of the same key, or (memory-only) an overwrite and a delete; distinct = distinct operation-trace hash.",
+		Rule: "deep cases: 300-700 keys inserted in key order with equal / rising / falling priorities (the treap degenerates into a chain hundreds of nodes deep), flushed, re-opened cold or evicted, then every key looked up, the deepest ones deleted and re-set, everything read back. case i = history generated from H(seed,C01,i): 20-80 operations (Set/SetItem incl. overwrites at lower/equal/higher priority, invalid items, Delete, Get/GetItem/Exist/Min/Max/GetTotals/visits) over 1-3 collections, file-backed or memory-only, with Flush/EvictSomeItems/re-open placed between them; every return value is compared with a reference map and every open handle is fully read back every K steps. Cases with index < placement-cases enumerate, for one short base history, every gap x {Flush, Evict x3, Flush+Evict x3, Flush+Reopen}. Non-trivial = the history contains at least one overwrite, one delete of a present key and (file-backed) a flush/evict/re-open between two mutations of the same key, or (memory-only) an overwrite and a delete; distinct = distinct operation-trace hash.",
 		Assumptions: []string{
 			"single goroutine; items passed to SetItem are never modified afterwards",
 			"comparators are total orders",
 			"Set() priorities are learned through GetItem right after the call",
 		},
-		NumCases: func(tier string) int { return pick(tier, 1500, 40000) },
+		NumCases: func(tier string) int { return pick(tier, 1500, 40000) + pick(tier, 8, 120) },
 		Run:      runC01,
 		Floor: func(tier string, st map[string]int64) string {
-			for _, k := range []string{"op.Set", "op.Delete.present", "op.Flush", "op.Evict", "op.Reopen", "op.Set.invalid", "op.Set.overwrite-lower", "op.Set.overwrite-equal", "op.Set.overwrite-higher", "evicted"} {
+			for _, k := range []string{"op.Set", "op.Delete.present", "op.Flush", "op.Evict", "op.Reopen", "op.Set.invalid", "op.Set.overwrite-lower", "op.Set.overwrite-equal", "op.Set.overwrite-higher", "evicted", "c01.deep-chain-cases"} {
 				if st[k] == 0 {
 					return "no " + k + " observed"
 				}
@@ -46,6 +46,9 @@ func runC01(ctx *Ctx, idx int) Result {
 	seed := CaseSeed(ctx.Seed, "C01", idx)
 	r := gen.New(seed)
 	SeedGlobalRand(seed)
+	if idx >= pick(ctx.Tier, 1500, 40000) {
+		return runC01Deep(ctx, idx, r)
+	}
 	placementCases := pick(ctx.Tier, 300, 6000)
 	if idx < placementCases {
 		return runC01Placement(ctx, idx, seed)
@@ -144,4 +147,70 @@ func runC01Placement(ctx *Ctx, idx int, seed uint64) Result {
 	ctx.Stats["placement-cases"]++
 	return Result{Hash: histHash(e), NonTrivial: h.Feat["overwrite"] || h.Feat["delete"], Viol: violOf(e),
 		Sample: map[string]interface{}{"index": idx, "placement": map[string]int{"base": base, "gap": gap, "kind": kind}, "ops": tail(e.Trace, 30)}}
+}
+
+// runC01Deep: a treap that is a chain several hundred nodes deep (sorted insertion order under
+// equal / monotone priorities), made cold, then looked up and mutated at the far end.
+func runC01Deep(ctx *Ctx, idx int, r *gen.R) Result {
+	cfg := driver.Config{ReadbackK: 0}
+	e := driver.NewEnv(fmt.Sprintf("c01deep-%d", idx), cfg)
+	e.SetCollection("d", "")
+	n := r.Range(300, 700)
+	regime := idx % 3 // 0 equal priorities, 1 rising with the key, 2 falling with the key
+	desc := (idx/3)%2 == 1
+	key := func(i int) []byte {
+		if desc {
+			i = n - 1 - i
+		}
+		return []byte(fmt.Sprintf("key-%05d", i))
+	}
+	for i := 0; i < n && !e.Failed(); i++ {
+		p := int32(1000)
+		switch regime {
+		case 1:
+			p = int32(1000 + i)
+		case 2:
+			p = int32(100000 - i)
+		}
+		e.SetItem("d", key(i), []byte(fmt.Sprintf("v%d", i)), p, false)
+	}
+	e.Flush()
+	if r.Bool() {
+		e.Reopen(r.Bool())
+	} else {
+		e.Evict("d", 40)
+	}
+	// every key, the far end of the insertion order first
+	for i := n - 1; i >= 0 && !e.Failed(); i-- {
+		switch i % 3 {
+		case 0:
+			e.Get(-1, "d", key(i))
+		case 1:
+			e.GetItem(-1, "d", key(i), i%2 == 0)
+		case 2:
+			e.Exist(-1, "d", key(i))
+		}
+		if i == n-40 {
+			e.Reopen(false) // cold again for the rest
+		}
+	}
+	if !e.Failed() {
+		e.Reopen(false)
+	}
+	for i := n - 1; i > n-6 && !e.Failed(); i-- {
+		e.Delete("d", key(i))
+	}
+	for i := 0; i < 3 && !e.Failed(); i++ {
+		e.SetItem("d", key(n-1-i), []byte("again"), 1000, false)
+	}
+	e.MinMax(-1, "d", false, true)
+	e.MinMax(-1, "d", true, false)
+	if !e.Failed() {
+		e.ReadbackAll(driver.RAll)
+		e.AfterStep()
+	}
+	ctx.Stats["c01.deep-chain-cases"]++
+	ctx.Add(e)
+	return Result{Hash: gen.Mix(uint64(idx), uint64(n)), NonTrivial: true, Viol: violOf(e),
+		Sample: map[string]interface{}{"index": idx, "deep_chain": true, "keys": n, "priority_regime": regime, "descending_insertion": desc, "ops": tail(e.Trace, 10)}}
 }
